@@ -17,6 +17,12 @@ def units(tier):
         for k in range(1, 2 if tier == 'quick' else 9):
             us.append(Unit(Z.ScheduleIndependent, {'seq': 'random:%s:%d' % (fl, base + k), 'schedule': 'random:%d' % (base + k)}))
             us.append(Unit(Z.ScheduleIndependent, {'seq': 'random:%s:%d' % (fl, base + k), 'schedule': 'always-consistent'}))
+    # histories on bridge images (all four namespaces) and histories that go on after the image was written and opened again
+    from contracts import fidelity as F
+    for s_ in F.random_bridge_names(tier) + F.random_reopen_names(tier):
+        k = sum(map(ord, s_)) % 7
+        us.append(Unit(Z.ScheduleIndependent, {'seq': s_, 'schedule': 'random:%d' % (base + k)}))
+        us.append(Unit(Z.ScheduleIndependent, {'seq': s_, 'schedule': 'always-consistent'}))
     for m in sorted(Z.MUTATORS):
         us.append(Unit(Z.MutatorMarksStale, {'method': m}))
     for rem in (False, True):
